@@ -15,7 +15,7 @@ import (
 
 type c04Mut struct {
 	// bitflip | subst | insert | delete | truncate | swap-next | replay-prev | reflect | splice |
-	// meta-payload-swap | meta-over-payload | nonce-advance-cut | none
+	// meta-payload-swap | meta-over-payload | nonce-advance-cut | nonce-advance-seals | none
 	Kind string `json:"kind"`
 	// nonce | meta-ct | meta-tag | pad1 | payload-ct | payload-tag | pad2 | boundary
 	Class string  `json:"class"`
@@ -234,6 +234,30 @@ func (t *c04TCP) emit(d *c04StreamDir, u *c04Unit) []byte {
 			return append(addToNonce(t.nonce0, t.cutSeal), u.Raw...)
 		}
 		return u.Raw
+	}
+	if m.Kind == "nonce-advance-seals" {
+		// remove the stream up to the sender's Param-th AEAD operation and advance the clear-text
+		// initial nonce by Param: on a unit boundary this is nonce-advance-cut; between a unit's two
+		// seals the receiver starts on the PAYLOAD nonce, in front of the payload's ciphertext
+		if t.applied {
+			return u.Raw
+		}
+		if t.cutSeal+u.seals() <= m.Param {
+			t.cut++
+			t.cutSeal += u.seals()
+			return nil
+		}
+		t.applied = true
+		t.target = u
+		if t.cutSeal == m.Param {
+			raw := u.Raw
+			if u.HasNonce {
+				raw = raw[24:]
+			}
+			return append(addToNonce(t.nonce0, m.Param), raw...)
+		}
+		t.cutSeal++
+		return append(addToNonce(t.nonce0, m.Param), u.Raw[u.layout()["payload-ct"].lo:]...)
 	}
 	if d.held != nil {
 		h := d.held
